@@ -551,7 +551,21 @@ func addrRoots(v ssa.Value) []ssa.Value {
 		case *ssa.ChangeInterface:
 			walk(x.X, depth+1)
 		case *ssa.Convert:
+			// string -> []byte / []rune makes a fresh copy
+			if b, ok := x.X.Type().Underlying().(*types.Basic); ok && b.Info()&types.IsString != 0 {
+				if _, ok := x.Type().Underlying().(*types.Slice); ok {
+					out = append(out, v)
+					return
+				}
+			}
 			walk(x.X, depth+1)
+		case *ssa.Call:
+			// append(s, ...): the result's backing array is s's or a fresh one
+			if b, ok := x.Call.Value.(*ssa.Builtin); ok && b.Name() == "append" && len(x.Call.Args) > 0 {
+				walk(x.Call.Args[0], depth+1)
+				return
+			}
+			out = append(out, v)
 		case *ssa.TypeAssert:
 			walk(x.X, depth+1)
 		case *ssa.Extract:
@@ -569,8 +583,13 @@ func addrRoots(v ssa.Value) []ssa.Value {
 					if len(sts) == 0 {
 						out = append(out, a)
 					}
+					before := len(out)
 					for _, st := range sts {
 						walk(st.Val, depth+1)
+					}
+					if len(sts) > 0 && len(out) == before {
+						// only self-referential stores (x = append(x, ...)): the variable itself is the root
+						out = append(out, a)
 					}
 					return
 				}
